@@ -440,6 +440,38 @@ def probes(ctx, a, hist, where):
     if sorted(CALLS) != sorted(list(a['plugins']['signature_extensions']) * 2):
         ctx.violation({**sig, 'clause': 'active plugins run in every script of run_auth_scripts', 'registry': 'plugins'},
                       f'history {hist}: active {sorted(a["plugins"]["signature_extensions"])}, called {CALLS}')
+    # ... and inside bodies: a function defined in one script and called in the next, the probe inside an IF inside it; an
+    # evaluated script; a TRY body
+    gm = op('GET_MESSAGE') + b'\x00' + op('POP0')
+    inner = op('TRUE') + op('IF') + len(gm).to_bytes(2, 'big') + gm
+    bodies = [
+        ('DEF in script 1, CALL in script 2', [op('DEF') + b'\x00' + len(inner).to_bytes(2, 'big') + inner, op('CALL') + b'\x00' + op('TRUE')], 1),
+        ('DEF + CALL twice', [op('DEF') + b'\x00' + len(gm).to_bytes(2, 'big') + gm + (op('CALL') + b'\x00') * 2 + op('TRUE')], 2),
+        ('EVAL', [P(gm) + op('EVAL') + op('TRUE')], 1),
+        ('TRY', [op('TRY_EXCEPT') + len(gm).to_bytes(2, 'big') + gm + b'\x00\x00' + op('TRUE')], 1),
+    ]
+    for bname, scripts_, times in bodies:
+        CALLS.clear()
+        try:
+            F.run_auth_scripts(list(scripts_), {'sigfield1': b'abc'})
+        except BaseException as e:
+            ctx.violation({**sig, 'clause': 'probe run failed'}, f'history {hist}: {bname}: {e!r}')
+        ctx.ran()
+        if sorted(CALLS) != sorted(list(a['plugins']['signature_extensions']) * times):
+            ctx.violation({**sig, 'clause': 'active plugins run inside nested bodies', 'registry': 'plugins', 'inside': bname.split(' ')[0]},
+                          f'history {hist}: {bname}: active {sorted(a["plugins"]["signature_extensions"])}, called {CALLS}')
+    for cid in (b'c1',):
+        inv = P(b'\x00') + P(cid) + op('INVOKE')
+        CALLS.clear()
+        try:
+            F.run_auth_scripts([op('DEF') + b'\x00' + len(inv).to_bytes(2, 'big') + inv, op('CALL') + b'\x00' + op('TRUE')])
+        except BaseException as e:
+            ctx.violation({**sig, 'clause': 'probe run failed'}, f'history {hist}: {e!r}')
+        ctx.ran()
+        want = ['A.abi'] if a['contracts'].get(cid) == 'A' else []
+        if CALLS != want:
+            ctx.violation({**sig, 'clause': 'contract used inside a called function iff active', 'registry': 'contracts'},
+                          f'history {hist}: {cid!r} active as {a["contracts"].get(cid)}, calls {CALLS}')
     # aliases compile iff active
     for al, target in ALIAS_TARGET.items():
         try:
